@@ -588,7 +588,9 @@ LEVEL_TEXT = ("Machine-checked theorems (Coq 8.16, closed under the global conte
               "the escape and quoting context it is written in) the token skeleton and final lexer state of the ENTIRE "
               "generated file are the same for any two assignments of about/help/possible-value-help texts with the same "
               "presence shape, and every text contributes literal payload only, for all command trees whose names "
-              "contain no quote, backslash or hash byte (boundary witness: an option name with a double quote).  The models are tied to clap_complete by running the extracted escape functions and the "
+              "contain no quote, backslash or hash byte (boundary witness: an option name with a double quote) -- stated for "
+              "the built tree and, since Command::build keeps names tame and treats the texts uniformly, for generate() on "
+              "the command tree as the user wrote it.  The models are tied to clap_complete by running the extracted escape functions and the "
               "real ones (hook) on the same strings and the extracted fish generator model and the real generator on the same trees (files compared byte for byte) on every check, and an independent oracle tokenises the real "
               "generated scripts (adversarial vs innocuous text in every slot) and compares token skeletons.")
 LEVEL_NOTE = ("Trusted: Coq kernel, extraction, OCaml drivers, Rust harness, generators, the shell lexer models (only "
